@@ -731,3 +731,60 @@ func init() {
 		WallBudget:  shapeBudget,
 	})
 }
+
+func init() {
+	registerProp(&PropSpec{
+		ID: "C09",
+		Units: func(tier string, seed int64, sh *Shared) []Unit {
+			var units []Unit
+			u := func(a ...string) { units = append(units, Unit{"VerifC09", a}) }
+			for _, n := range []string{"2", "126", "127", "128", "129", "200"} {
+				for _, o := range []string{"0000", "1111"} {
+					u("operands", n, o, "")
+				}
+				u("operands", n, "0110", "event")
+			}
+			for _, ab := range []string{"63,64", "64,64", "64,65", "125,2", "126,2", "2,125", "2,126", "100,27", "100,28"} {
+				for _, o := range []string{"0000", "0100", "1111", "0101"} {
+					u("flatten", ab, o, "")
+				}
+				u("flatten", ab, "1111", "event")
+			}
+			for _, d := range []string{"6", "7", "8", "9", "14", "15", "16", "17", "40"} {
+				for _, o := range []string{"0000", "0010", "1111"} {
+					u("stack", d, o, "")
+					u("stack", d, o, "event")
+				}
+				u("stack", d, "1111", "debug")
+			}
+			for _, n := range []string{"16382", "16383", "16384", "16385"} {
+				u("nodes", n, "0000", "event")
+			}
+			u("nodes", "16384", "1111", "debug")
+			u("nodes", "16383", "0010", "debug")
+			if tier == "thorough" {
+				for _, n := range []string{"32765", "32766", "32767", "32768", "32769"} {
+					u("nodes", n, "0000", "")
+					u("nodes", n, "1111", "")
+					u("nodes", n, "0000", "event")
+				}
+				u("nodes", "32767", "0010", "debug")
+				u("nodes", "20000", "1111", "event")
+			} else {
+				u("nodes", "32767", "0000", "")
+				u("nodes", "32768", "0000", "")
+			}
+			return units
+		},
+		Reach: []string{"accepted", "rejected"},
+		Bounds: func(tier string) map[string]interface{} {
+			return map[string]interface{}{"operand_counts": "2,126,127,128,129,200 flat; (63,64) (64,64) (64,65) (127,1) (127,2) (126,1) (2,125) (2,126) through flattening with ReduceNesting on and off",
+				"node_counts": "16382..16385 with ReportEvent/Debug, 32767/32768 plain (32765..32769 in all modes thorough)", "stack_depths": "6,7,8,9,14,15,16,17,40 with and without fast operators and events",
+				"data": "the variable's value is an arbitrary int64 (solver variable); the reference is the same wrapping fold"}
+		},
+		Rule:        "one unit per (kind, size, options, event mode); sizes are structural and enumerated at and around each limit; the narrowing monitor checks every Convert to a narrower integer and every int8/int16 +,-,* executed in the package",
+		Assumptions: []string{"sizes not adjacent to a limit are outside the bound"},
+		MaxSteps:    400_000_000,
+		WallBudget:  shapeBudget,
+	})
+}
